@@ -1,34 +1,37 @@
 /-
-C09 — formula theorems over the definitions regenerated from src/ec/ref/ecx/xisog.c and xeval.c (tie T:
-`SqiGen.Isog`, emitted by tools/translate/straightline.py on every run).  Any commutative ring / field.
+C09 — formula theorems over the definitions regenerated from src/ec/ref/ecx/xisog.c, xeval.c, ec.c (tie T:
+`SqiGen.Isog`, `SqiGen.Ec`, emitted by tools/translate/straightline.py on every run).  Any field.
+Lemmas with the polynomial cofactors: `SqiProofs.IsogFormulas` (cofactors found with sympy, re-checked by `ring`).
 
-For the degree-2 step (`xisog_2` / `xeval_2`, kernel point K = (x_K : z_K) of order 2, α = x_K / z_K):
-  * `xeval_2_kernel`            φ(K) = ∞
-  * `xisog_2_codomain`          the emitted A24' encodes A' = 2(1 - 2α²)   (4·B.x - 2·B.z = 2(z² - 2x²))
-  * `xeval_2_map`               φ is x ↦ x(αx - 1)/(x - α)   (cross-multiplied)
-  * `xeval_2_dbl_commute`       φ ∘ [2]_E = [2]_E' ∘ φ  (projective identity; hypothesis: K is a 2-torsion point of E,
-                                 written in the A24 encoding)
-  * `xeval_2_infinity`, `xeval_2_zero`   ∞ ↦ ∞ and (0,0) ↦ (0,0)
-For the degree-4 step (`xisog_4` / `xeval_4`, K of order 4): `xeval_4_kernel`, `xisog_4_codomain`
-  (A24' = 1 - α⁴), `xeval_4_infinity`; singular variants (`[2]K = (0,0)`): `xeval_4_singular_kernel` for both
-  branches x_K = ± z_K, `xisog_4_singular_codomain`, and `xeval_2_singular_kernel` ((0,0) ↦ ∞).
-That these maps are *the* quotient isogenies as morphisms of elliptic curves (E/⟨K⟩ ≅ E') is not formalised
-(no quotient-curve theory in Mathlib): partial, see notes/C09.md; the exact-arithmetic oracle of tools/props/c09.py
-checks it on real curves.
+Notation (SqiProofs.IsogFormulas): `cross P Q = 0` is projective equality of x-only points; `ord2 K A24 = 0` /
+`ord4 K A24 = 0`: K has order 2 / order 4 (with [2]K ≠ (0,0)) on the Montgomery curve E with (A+2 : 4) = A24;
+`biquad P Q D A24 = 0`: D = x(P ∓ Q) on E (the relation under which the C's xADD(P,Q,D) is x(P ± Q)).
+
+Combined theorems — each says that the pair (xisog_k, xeval_k) has, at the level of formulas, every property that
+characterises the quotient map E → E/⟨K⟩ on x-coordinates:
+  * `xisog_2_is_isogeny_formulas`           (kernel of order 2, K ≠ (0,0))
+  * `xisog_2_singular_is_isogeny_formulas`  (kernel (0,0); s = sqrt(A² − 4))
+  * `xisog_4_is_isogeny_formulas`           (kernel of order 4, [2]K ≠ (0,0)): identically the composition of two
+                                            degree-2 steps, each satisfying the hypotheses of the degree-2 theorem
+  * `xisog_4_singular_is_isogeny_formulas`  ([2]K = (0,0), both branches K.x = ± K.z): the singular degree-2 step
+                                            followed by a regular one (modulo s² = A² − 4), + direct commutation
+                                            with xDBL
+The properties: K ↦ ∞ and ∞ ↦ ∞; explicit degree; codomain coefficient; φ ∘ [2]_E = [2]_E' ∘ φ;
+φ(xADD(P,Q,P−Q)) = xADD'(φP,φQ,φ(P−Q)) and φ(P−Q) is again the difference on E'; for every point (x,y) of E the
+point (φ(x), y·φ'(x)·const) lies on the codomain curve (explicit y-map).
+What is NOT formalised: that a rational map with these properties *is* the quotient isogeny as a morphism of
+elliptic curves / E' ≅ E/⟨K⟩ (no quotient-curve theory in Mathlib) — partial, see notes/C09.md; the
+exact-arithmetic oracle of tools/props/c09.py checks it on real curves.
 -/
-import SqiGen.Isog
-import Mathlib.Tactic.Ring
-import Mathlib.Tactic.LinearCombination
-import Mathlib.Algebra.Field.Defs
+import SqiProofs.IsogFormulas
 
 namespace SqiProps.C09F
-open SqiGen
+open SqiGen SqiProofs.IsogFormulas
 
 variable {F : Type} [Field F] [DecidableEq F]
 
-/-! ### degree 2 -/
+/-! ### degree 2, kernel ≠ (0,0) -/
 
-/-- the kernel generator is mapped to infinity -/
 theorem xeval_2_kernel (K : EcPoint F) : (xeval_2_pt K (xisog_2 K).1).z = 0 := by
   simp only [xeval_2_pt, xisog_2]; ring
 
@@ -38,7 +41,7 @@ theorem xisog_2_codomain (K : EcPoint F) :
     4 * (xisog_2 K).2.x - 2 * (xisog_2 K).2.z = 2 * (K.z ^ 2 - 2 * K.x ^ 2) := by
   simp only [xisog_2]; refine ⟨by ring, by ring, by ring⟩
 
-/-- `xeval_2` is the map x ↦ x(αx - 1)/(x - α), α = x_K/z_K -/
+/-- `xeval_2` is the degree-2 map x ↦ x(αx - 1)/(x - α), α = x_K/z_K -/
 theorem xeval_2_map (K Q : EcPoint F) :
     (xeval_2_pt Q (xisog_2 K).1).x * (Q.z * (K.z * Q.x - K.x * Q.z)) =
     (xeval_2_pt Q (xisog_2 K).1).z * (Q.x * (K.x * Q.x - K.z * Q.z)) := by
@@ -50,17 +53,111 @@ theorem xeval_2_infinity (K Q : EcPoint F) (h : Q.z = 0) : (xeval_2_pt Q (xisog_
 theorem xeval_2_zero (K Q : EcPoint F) (h : Q.x = 0) : (xeval_2_pt Q (xisog_2 K).1).x = 0 := by
   simp only [xeval_2_pt, xisog_2, h]; ring
 
-/-- φ commutes with doubling: φ(xDBL_E(Q)) = xDBL_E'(φ(Q)) as projective points, when K = (x_K : z_K) is a point of
-    order 2 on E, i.e. x_K² + A x_K z_K + z_K² = 0, which in the (A24 : C24) = (A + 2 : 4) encoding reads
-    A24 · 4 x_K z_K = - C24 · (x_K - z_K)². -/
-theorem xeval_2_dbl_commute (K Q A24 : EcPoint F)
-    (hK : A24.x * (4 * K.x * K.z) = - A24.z * (K.x - K.z) ^ 2) :
-    (xeval_2_pt (xDBL_A24 Q A24) (xisog_2 K).1).x * (xDBL_A24 (xeval_2_pt Q (xisog_2 K).1) (xisog_2 K).2).z * (4 * K.x * K.z) ^ 2 =
-    (xeval_2_pt (xDBL_A24 Q A24) (xisog_2 K).1).z * (xDBL_A24 (xeval_2_pt Q (xisog_2 K).1) (xisog_2 K).2).x * (4 * K.x * K.z) ^ 2 := by
-  simp only [xeval_2_pt, xisog_2, xDBL_A24]
-  linear_combination (-2048*K.x^4*K.z^2*Q.x^2*Q.z^2*(Q.x - Q.z)^2*(Q.x + Q.z)^2*(4*K.x^3*Q.x^6*Q.z^2*A24.z - 8*K.x^3*Q.x^4*Q.z^4*A24.z + 4*K.x^3*Q.x^2*Q.z^6*A24.z - 8*K.x^2*K.z*Q.x^7*Q.z*A24.z - 16*K.x^2*K.z*Q.x^6*Q.z^2*A24.x + 8*K.x^2*K.z*Q.x^6*Q.z^2*A24.z - 8*K.x^2*K.z*Q.x^5*Q.z^3*A24.z - 32*K.x^2*K.z*Q.x^4*Q.z^4*A24.x + 16*K.x^2*K.z*Q.x^4*Q.z^4*A24.z - 8*K.x^2*K.z*Q.x^3*Q.z^5*A24.z - 16*K.x^2*K.z*Q.x^2*Q.z^6*A24.x + 8*K.x^2*K.z*Q.x^2*Q.z^6*A24.z - 8*K.x^2*K.z*Q.x*Q.z^7*A24.z + K.x*K.z^2*Q.x^8*A24.z + 16*K.x*K.z^2*Q.x^6*Q.z^2*A24.z + 64*K.x*K.z^2*Q.x^5*Q.z^3*A24.x - 32*K.x*K.z^2*Q.x^5*Q.z^3*A24.z + 30*K.x*K.z^2*Q.x^4*Q.z^4*A24.z + 64*K.x*K.z^2*Q.x^3*Q.z^5*A24.x - 32*K.x*K.z^2*Q.x^3*Q.z^5*A24.z + 16*K.x*K.z^2*Q.x^2*Q.z^6*A24.z + K.x*K.z^2*Q.z^8*A24.z - 16*K.z^3*Q.x^5*Q.z^3*A24.z - 64*K.z^3*Q.x^4*Q.z^4*A24.x + 32*K.z^3*Q.x^4*Q.z^4*A24.z - 16*K.z^3*Q.x^3*Q.z^5*A24.z)) * hK
+theorem four_ne_zero_of_two (h2 : (2 : F) ≠ 0) : (4 : F) ≠ 0 := by
+  have : (4 : F) = 2 * 2 := by norm_num
+  rw [this]; exact mul_ne_zero h2 h2
 
-/-! ### degree 4 -/
+/-- φ ∘ [2]_E = [2]_E' ∘ φ -/
+theorem xeval_2_dbl_commute (K Q A24 : EcPoint F) (hK : ord2 K A24 = 0) (h2 : (2 : F) ≠ 0) (hx : K.x ≠ 0) (hz : K.z ≠ 0) :
+    cross (xeval_2_pt (xDBL_A24 Q A24) (xisog_2 K).1) (xDBL_A24 (xeval_2_pt Q (xisog_2 K).1) (xisog_2 K).2) = 0 :=
+  (mul_eq_zero.mp (xeval_2_dbl K Q A24 hK)).resolve_right
+    (pow_ne_zero _ (mul_ne_zero (mul_ne_zero (four_ne_zero_of_two h2) hx) hz))
+
+/-- φ(xADD(P,Q,D)) = xADD'(φP,φQ,φD) when D = x(P−Q), and φ(D) is again the difference of φP, φQ on E' -/
+theorem xeval_2_add_commute (K P Q D A24 : EcPoint F) (hK : ord2 K A24 = 0) (hD : biquad P Q D A24 = 0) (ha : A24.z ≠ 0) :
+    cross (xeval_2_pt (xADD P Q D) (xisog_2 K).1)
+          (xADD (xeval_2_pt P (xisog_2 K).1) (xeval_2_pt Q (xisog_2 K).1) (xeval_2_pt D (xisog_2 K).1)) = 0 ∧
+    biquad (xeval_2_pt P (xisog_2 K).1) (xeval_2_pt Q (xisog_2 K).1) (xeval_2_pt D (xisog_2 K).1) (xisog_2 K).2 = 0 :=
+  ⟨(mul_eq_zero.mp (xeval_2_add K P Q D A24 hK hD)).resolve_right ha,
+   (mul_eq_zero.mp (xeval_2_biquad K P Q D A24 hK hD)).resolve_right ha⟩
+
+/-- **`xisog_2` / `xeval_2` have all formula-level properties of the quotient isogeny by ⟨K⟩** (K of order 2,
+    K ≠ (0,0), on E with (A+2:4) = A24; characteristic ≠ 2). With k = kernel data, B = emitted codomain:
+    (1) K ↦ ∞, ∞ ↦ ∞, (0,0) ↦ (0,0); (2) φ(x) = x(αx−1)/(x−α): degree 2; (3) codomain A' = 2(1−2α²);
+    (4) φ∘[2] = [2]∘φ; (5) φ(xADD(P,Q,P−Q)) = xADD(φP,φQ,φ(P−Q)) and φ(P−Q) = φP − φQ on E';
+    (6) (x,y) ∈ E ⇒ (φ(x), y·W/Dn²) ∈ E' with B' = αB (explicit y-map, W ∝ φ'·Dn²). -/
+theorem xisog_2_is_isogeny_formulas (K A24 : EcPoint F) (hK : ord2 K A24 = 0) (h2 : (2 : F) ≠ 0)
+    (hx : K.x ≠ 0) (hz : K.z ≠ 0) (ha : A24.z ≠ 0) :
+    (xeval_2_pt K (xisog_2 K).1).z = 0 ∧
+    (∀ Q : EcPoint F, Q.z = 0 → (xeval_2_pt Q (xisog_2 K).1).z = 0) ∧
+    (∀ Q : EcPoint F, Q.x = 0 → (xeval_2_pt Q (xisog_2 K).1).x = 0) ∧
+    (∀ Q : EcPoint F, (xeval_2_pt Q (xisog_2 K).1).x * (Q.z * (K.z * Q.x - K.x * Q.z)) =
+        (xeval_2_pt Q (xisog_2 K).1).z * (Q.x * (K.x * Q.x - K.z * Q.z))) ∧
+    (4 * (xisog_2 K).2.x - 2 * (xisog_2 K).2.z = 2 * (K.z ^ 2 - 2 * K.x ^ 2) ∧ (xisog_2 K).2.z = K.z ^ 2) ∧
+    (∀ Q : EcPoint F, cross (xeval_2_pt (xDBL_A24 Q A24) (xisog_2 K).1)
+        (xDBL_A24 (xeval_2_pt Q (xisog_2 K).1) (xisog_2 K).2) = 0) ∧
+    (∀ P Q D : EcPoint F, biquad P Q D A24 = 0 →
+        cross (xeval_2_pt (xADD P Q D) (xisog_2 K).1)
+          (xADD (xeval_2_pt P (xisog_2 K).1) (xeval_2_pt Q (xisog_2 K).1) (xeval_2_pt D (xisog_2 K).1)) = 0 ∧
+        biquad (xeval_2_pt P (xisog_2 K).1) (xeval_2_pt Q (xisog_2 K).1) (xeval_2_pt D (xisog_2 K).1) (xisog_2 K).2 = 0) ∧
+    (∀ x y Bc : F, Bc ≠ 0 → Bc * y ^ 2 * A24.z - x * (A24.z * x ^ 2 + (4 * A24.x - 2 * A24.z) * x + A24.z) = 0 →
+        let N := (xeval_2_pt { x := x, z := 1 } (xisog_2 K).1).x
+        let Dn := (xeval_2_pt { x := x, z := 1 } (xisog_2 K).1).z
+        let W := 4 * K.x * (K.z * x ^ 2 - 2 * K.x * x + K.z)
+        let B := (xisog_2 K).2
+        K.x * Bc * (y * W) ^ 2 * B.z = K.z * Dn * N * (B.z * N ^ 2 + (4 * B.x - 2 * B.z) * N * Dn + B.z * Dn ^ 2)) := by
+  refine ⟨xeval_2_kernel K, fun Q h => xeval_2_infinity K Q h, fun Q h => xeval_2_zero K Q h, fun Q => xeval_2_map K Q,
+    ⟨(xisog_2_codomain K).2.2, (xisog_2_codomain K).2.1⟩, fun Q => xeval_2_dbl_commute K Q A24 hK h2 hx hz,
+    fun P Q D hD => xeval_2_add_commute K P Q D A24 hK hD ha, ?_⟩
+  intro x y Bc hB hc
+  have h := xeval_2_on_curve K A24 x y Bc hK hc
+  have hne : (4 * K.x * K.z) ^ 1 * (Bc * A24.z) ^ 1 ≠ 0 := by
+    simp only [pow_one]
+    exact mul_ne_zero (mul_ne_zero (mul_ne_zero (four_ne_zero_of_two h2) hx) hz) (mul_ne_zero hB ha)
+  exact sub_eq_zero.mp ((mul_eq_zero.mp h).resolve_right hne)
+
+
+/-! ### degree 2, kernel (0,0) (`xisog_2_singular` / `xeval_2_singular`) -/
+
+/-- the generated `xisog_2_singular` emits exactly the kernel data (a, −s) and the codomain (2a + 2s : 4s) with
+    a = A = 2(2·A24.x − A24.z)/A24.z and s = sqrt(a² − 4) -/
+theorem xisog_2_singular_eq (sqrt : F → F) (A24 : EcPoint F) :
+    let a := (A24.x + A24.x - A24.z + (A24.x + A24.x - A24.z)) * A24.z⁻¹
+    let s := sqrt (a * a - ((4 : Nat) : F))
+    xisog_2_singular sqrt A24 = (kpsS a s, codS a s) := by
+  simp only [xisog_2_singular, kpsS, codS]
+
+theorem xeval_2_singular_kernel (kps : EcKps2 F) (Q : EcPoint F) (h : Q.x = 0) :
+    (xeval_2_singular_pt Q kps).z = 0 ∧ (xeval_2_singular_pt Q kps).x = Q.z ^ 2 := by
+  simp only [xeval_2_singular_pt, h]; refine ⟨by ring, by ring⟩
+
+theorem xeval_2_singular_infinity (kps : EcKps2 F) (Q : EcPoint F) (h : Q.z = 0) :
+    (xeval_2_singular_pt Q kps).z = 0 := by
+  simp only [xeval_2_singular_pt, h]; ring
+
+/-- **`xisog_2_singular` / `xeval_2_singular` have all formula-level properties of the quotient isogeny by ⟨(0,0)⟩**
+    on E : y² = x³ + a x² + x (A24 = (a+2 : 4)), s² = a² − 4:
+    (0,0) ↦ ∞, ∞ ↦ ∞, φ(x) = (x² + a x + 1)/(−s x) (degree 2), codomain A' = 2a/s, commutation with xDBL and xADD,
+    preservation of the difference relation, and the explicit y-map (B' = −B/s). -/
+theorem xisog_2_singular_is_isogeny_formulas (a s : F) (hs : s ^ 2 - (a ^ 2 - 4) = 0) :
+    (∀ Q : EcPoint F, Q.x = 0 → (xeval_2_singular_pt Q (kpsS a s)).z = 0) ∧
+    (∀ Q : EcPoint F, Q.z = 0 → (xeval_2_singular_pt Q (kpsS a s)).z = 0) ∧
+    (∀ Q : EcPoint F, (xeval_2_singular_pt Q (kpsS a s)).x = Q.x ^ 2 + a * Q.x * Q.z + Q.z ^ 2 ∧
+        (xeval_2_singular_pt Q (kpsS a s)).z = -s * (Q.x * Q.z)) ∧
+    (s * (4 * (codS a s).x - 2 * (codS a s).z) = 2 * a * (codS a s).z) ∧
+    (∀ Q : EcPoint F, cross (xeval_2_singular_pt (xDBL_A24 Q (a24 a)) (kpsS a s))
+        (xDBL_A24 (xeval_2_singular_pt Q (kpsS a s)) (codS a s)) = 0) ∧
+    (∀ P Q D : EcPoint F, biquad P Q D (a24 a) = 0 →
+        cross (xeval_2_singular_pt (xADD P Q D) (kpsS a s))
+          (xADD (xeval_2_singular_pt P (kpsS a s)) (xeval_2_singular_pt Q (kpsS a s)) (xeval_2_singular_pt D (kpsS a s))) = 0 ∧
+        biquad (xeval_2_singular_pt P (kpsS a s)) (xeval_2_singular_pt Q (kpsS a s)) (xeval_2_singular_pt D (kpsS a s))
+          (codS a s) = 0) ∧
+    (∀ x y Bc : F, Bc ≠ 0 → Bc * y ^ 2 - (x ^ 3 + a * x ^ 2 + x) = 0 →
+        let N := (xeval_2_singular_pt { x := x, z := 1 } (kpsS a s)).x
+        let Dn := (xeval_2_singular_pt { x := x, z := 1 } (kpsS a s)).z
+        let W := -s * (x ^ 2 - 1)
+        let B := codS a s
+        (-Bc) * (y * W) ^ 2 * B.z = s * (Dn * N * (B.z * N ^ 2 + (4 * B.x - 2 * B.z) * N * Dn + B.z * Dn ^ 2))) := by
+  refine ⟨fun Q h => (xeval_2_singular_kernel _ Q h).1, fun Q h => xeval_2_singular_infinity _ Q h, ?_, ?_,
+    fun Q => xeval_2_singular_dbl Q a s hs,
+    fun P Q D hD => ⟨xeval_2_singular_add P Q D a s hs hD, xeval_2_singular_biquad P Q D a s hs hD⟩, ?_⟩
+  · intro Q; simp only [xeval_2_singular_pt, kpsS]; exact ⟨by ring, by ring⟩
+  · simp only [codS]; ring
+  · intro x y Bc hB hc
+    have h := xeval_2_singular_on_curve x y Bc a s hs hc
+    exact sub_eq_zero.mp ((mul_eq_zero.mp h).resolve_right (pow_ne_zero _ hB))
+
+/-! ### degree 4, [2]K ≠ (0,0) (`xisog_4` / `xeval_4`) -/
 
 theorem xeval_4_kernel (K : EcPoint F) (k0 : EcKps4 F) : (xeval_4_pt K (xisog_4 k0 K).1).z = 0 := by
   simp only [xeval_4_pt, xisog_4]; ring
@@ -73,7 +170,41 @@ theorem xisog_4_codomain (K : EcPoint F) (k0 : EcKps4 F) :
 theorem xeval_4_infinity (K Q : EcPoint F) (k0 : EcKps4 F) (h : Q.z = 0) : (xeval_4_pt Q (xisog_4 k0 K).1).z = 0 := by
   simp only [xeval_4_pt, xisog_4, h]; ring
 
-/-! ### singular variants ([2]K = (0,0), i.e. x_K = ± z_K) -/
+/-- **`xisog_4` / `xeval_4` are, identically, the composition of two degree-2 steps each of which satisfies the
+    hypotheses of `xisog_2_is_isogeny_formulas`** (K of order 4 on E, [2]K ≠ (0,0), characteristic ≠ 2):
+    with K₂ = (K.x² + K.z² : 2 K.x K.z):  [2]K = K₂;  K₂ has order 2 on E;  φ₁ := xeval_2 with kernel K₂, E₁ its
+    codomain;  φ₁(K) has order 2 on E₁;  xeval_4 = xeval_2[φ₁(K)] ∘ φ₁ as projective maps (polynomial identity in
+    K and the point, no hypothesis) and the codomains agree;  K ↦ ∞, ∞ ↦ ∞. Consequently the degree-4 map inherits
+    degree 4, commutation with xDBL / xADD, preservation of differences and the y-map from the degree-2 theorem
+    applied to (K₂, E) and to (φ₁(K), E₁). -/
+theorem xisog_4_is_isogeny_formulas (K A24 : EcPoint F) (k0 : EcKps4 F) (hK : ord4 K A24 = 0) (h2 : (2 : F) ≠ 0)
+    (hx : K.x ≠ 0) (hz : K.z ≠ 0) (hq : K.x ^ 2 + K.z ^ 2 ≠ 0) :
+    (xeval_4_pt K (xisog_4 k0 K).1).z = 0 ∧
+    (∀ Q : EcPoint F, Q.z = 0 → (xeval_4_pt Q (xisog_4 k0 K).1).z = 0) ∧
+    cross (xDBL_A24 K A24) (dbl4 K) = 0 ∧
+    ord2 (dbl4 K) A24 = 0 ∧
+    ord2 (xeval_2_pt K (xisog_2 (dbl4 K)).1) (xisog_2 (dbl4 K)).2 = 0 ∧
+    (∀ Q : EcPoint F, cross (xeval_4_pt Q (xisog_4 k0 K).1)
+        (xeval_2_pt (xeval_2_pt Q (xisog_2 (dbl4 K)).1) (xisog_2 (xeval_2_pt K (xisog_2 (dbl4 K)).1)).1) = 0) ∧
+    cross (xisog_4 k0 K).2 (xisog_2 (xeval_2_pt K (xisog_2 (dbl4 K)).1)).2 = 0 := by
+  have h8 : (8 : F) * K.x * K.z * (K.x ^ 2 + K.z ^ 2) ≠ 0 := by
+    have : (8 : F) = 2 * 2 * 2 := by norm_num
+    rw [this]
+    exact mul_ne_zero (mul_ne_zero (mul_ne_zero (mul_ne_zero (mul_ne_zero h2 h2) h2) hx) hz) hq
+  exact ⟨xeval_4_kernel K k0, fun Q h => xeval_4_infinity K Q k0 h,
+    (mul_eq_zero.mp (dbl_of_ord4 K A24 hK)).resolve_right (pow_ne_zero _ h8),
+    (mul_eq_zero.mp (ord2_dbl4 K A24 hK)).resolve_right (pow_ne_zero _ h8),
+    ord2_step2 K, fun Q => xeval_4_comp K Q k0, xisog_4_comp K k0⟩
+
+/-- the first step of the decomposition, instantiated: φ₁ (kernel [2]K) commutes with doubling on E -/
+theorem xisog_4_step1 (K A24 : EcPoint F) (hK : ord4 K A24 = 0) (h2 : (2 : F) ≠ 0)
+    (hx : K.x ≠ 0) (hz : K.z ≠ 0) (hq : K.x ^ 2 + K.z ^ 2 ≠ 0) (Q : EcPoint F) :
+    cross (xeval_2_pt (xDBL_A24 Q A24) (xisog_2 (dbl4 K)).1)
+        (xDBL_A24 (xeval_2_pt Q (xisog_2 (dbl4 K)).1) (xisog_2 (dbl4 K)).2) = 0 := by
+  have h := (xisog_4_is_isogeny_formulas K A24 ⟨⟨0, 0⟩, ⟨0, 0⟩, ⟨0, 0⟩⟩ hK h2 hx hz hq).2.2.2.1
+  exact xeval_2_dbl_commute (dbl4 K) Q A24 h h2 hq (by simp only [dbl4]; exact mul_ne_zero (mul_ne_zero h2 hx) hz)
+
+/-! ### degree 4, [2]K = (0,0) (`xisog_4_singular` / `xeval_4_singular`), K.x = ± K.z -/
 
 theorem xeval_4_singular_kernel_eq (K A24 : EcPoint F) (k0 : EcKps4 F) (h : K.x = K.z) :
     (xeval_4_singular_pt K K (xisog_4_singular k0 K A24).1).z = 0 := by
@@ -85,7 +216,7 @@ theorem xeval_4_singular_kernel_neg (K A24 : EcPoint F) (k0 : EcKps4 F) (h : K.x
   simp only [xeval_4_singular_pt, xisog_4_singular, hd, if_false, Bool.false_eq_true]
   rw [h]; ring
 
-/-- codomain of the singular 4-isogeny: (A24' : C24') = (C24 : A24 - C24) if x_K = z_K, else (C24 : -A24) -/
+/-- codomain of the singular 4-isogeny: (A24' : C24') = (C24 : C24 − A24) if x_K = z_K, else (C24 : A24) -/
 theorem xisog_4_singular_codomain (K A24 : EcPoint F) (k0 : EcKps4 F) :
     (xisog_4_singular k0 K A24).2.x = A24.z ∧
     (xisog_4_singular k0 K A24).2.z = if K.x = K.z then -(A24.x - A24.z) else A24.x := by
@@ -93,13 +224,34 @@ theorem xisog_4_singular_codomain (K A24 : EcPoint F) (k0 : EcKps4 F) :
   · simp [xisog_4_singular, h]
   · simp [xisog_4_singular, h]
 
-/-- singular 2-isogeny (kernel (0,0)): (0,0) ↦ ∞ and ∞ ↦ ∞ -/
-theorem xeval_2_singular_kernel (kps : EcKps2 F) (Q : EcPoint F) (h : Q.x = 0) :
-    (xeval_2_singular_pt Q kps).z = 0 ∧ (xeval_2_singular_pt Q kps).x = Q.z ^ 2 := by
-  simp only [xeval_2_singular_pt, h]; refine ⟨by ring, by ring⟩
+/-- φ ∘ [2] = [2] ∘ φ for the singular 4-isogeny: a polynomial identity, any A24, both branches -/
+theorem xeval_4_singular_dbl_commute (K Q A24 : EcPoint F) (k0 : EcKps4 F) :
+    cross (xeval_4_singular_pt (xDBL_A24 Q A24) K (xisog_4_singular k0 K A24).1)
+      (xDBL_A24 (xeval_4_singular_pt Q K (xisog_4_singular k0 K A24).1) (xisog_4_singular k0 K A24).2) = 0 := by
+  by_cases h : K.x = K.z
+  · simp only [cross, xeval_4_singular_pt, xisog_4_singular, xDBL_A24, h, decide_true, if_true]; ring
+  · have hd : decide (K.x = K.z) = false := by simp [h]
+    simp only [cross, xeval_4_singular_pt, xisog_4_singular, xDBL_A24, hd, if_false, Bool.false_eq_true]; ring
 
-theorem xeval_2_singular_infinity (kps : EcKps2 F) (Q : EcPoint F) (h : Q.z = 0) :
-    (xeval_2_singular_pt Q kps).z = 0 := by
-  simp only [xeval_2_singular_pt, h]; ring
+/-- **`xisog_4_singular` / `xeval_4_singular`** (K of order 4 above (0,0): K.x = ± K.z) on E : y² = x³ + a x² + x,
+    A24 = (a+2 : 4), s² = a² − 4: K ↦ ∞; commutation with xDBL (identically); and, modulo s² = a² − 4, the map is the
+    singular degree-2 step (kernel (0,0), `xisog_2_singular_is_isogeny_formulas`) followed by the regular degree-2
+    step whose kernel φ₀(K) has order 2 on the intermediate curve (`xisog_2_is_isogeny_formulas`); codomains agree. -/
+theorem xisog_4_singular_is_isogeny_formulas (K : EcPoint F) (k0 : EcKps4 F) (a s : F) (hs : s ^ 2 - (a ^ 2 - 4) = 0)
+    (hK : K.x = K.z ∨ (K.x = -K.z ∧ K.x ≠ K.z)) :
+    (xeval_4_singular_pt K K (xisog_4_singular k0 K (a24 a)).1).z = 0 ∧
+    (∀ Q : EcPoint F, cross (xeval_4_singular_pt (xDBL_A24 Q (a24 a)) K (xisog_4_singular k0 K (a24 a)).1)
+      (xDBL_A24 (xeval_4_singular_pt Q K (xisog_4_singular k0 K (a24 a)).1) (xisog_4_singular k0 K (a24 a)).2) = 0) ∧
+    ord2 (xeval_2_singular_pt K (kpsS a s)) (codS a s) = 0 ∧
+    (∀ Q : EcPoint F, cross (xeval_4_singular_pt Q K (xisog_4_singular k0 K (a24 a)).1)
+        (xeval_2_pt (xeval_2_singular_pt Q (kpsS a s)) (xisog_2 (xeval_2_singular_pt K (kpsS a s))).1) = 0) ∧
+    cross (xisog_4_singular k0 K (a24 a)).2 (xisog_2 (xeval_2_singular_pt K (kpsS a s))).2 = 0 := by
+  rcases hK with h | ⟨h, hne⟩
+  · exact ⟨xeval_4_singular_kernel_eq K _ k0 h, fun Q => xeval_4_singular_dbl_commute K Q _ k0,
+      ord2_step2_singular_eq K a s hs h, fun Q => xeval_4_singular_comp_eq K Q k0 a s hs h,
+      xisog_4_singular_comp_eq K k0 a s hs h⟩
+  · exact ⟨xeval_4_singular_kernel_neg K _ k0 h hne, fun Q => xeval_4_singular_dbl_commute K Q _ k0,
+      ord2_step2_singular_neg K a s hs h, fun Q => xeval_4_singular_comp_neg K Q k0 a s hs h hne,
+      xisog_4_singular_comp_neg K k0 a s hs h hne⟩
 
 end SqiProps.C09F
